@@ -19,6 +19,13 @@ CHECKS = {
         text="TLC proves ReadOnlyQuiet on the reference semantics and enumerates every distinct store state (bounded) with the predicted effect of every operation of the alphabet (every request-parameter class, refused requests, unknown and malformed thread ids); the harness executes each (state, operation) pair on the real store and compares events.jsonl byte for byte before/after: exact prefix, whole newline-terminated frames, nothing when the model predicts nothing. Restart / cache-fault / injected-append-failure histories are validated by TLC as traces.",
         note="Exhaustive within MaxFrames/MaxOps of the configuration; sequential histories; trusted: TLC, the byte comparison in the harness.",
         ref="4 C02"),
+    "C05": dict(
+        engine="StoreSeq",
+        category="model_checking",
+        technique="TLA+ spec StoreSeq with Crash between any two steps (GenCrash) checked with TLC in the as-implemented and repaired variants; crash snapshots taken at every file-system hook point of real operations, restarted in place and compared with the model's prediction per crash class",
+        text="TLC explores every crash point of the modelled append / create / lineage steps, restart and a further append, and predicts per crash class whether GapFree and AckedOnce survive; the harness copies data/ and <ws>/.rip at every file-system hook point (log, each sidecar and index incl. between body and newline, thread index) of 16+ real operations, restarts a fresh engine on each copy in place and requires: validated replay, acknowledged appends exactly once, correct numbering and success of further appends, and every read capability answering as with caches removed.",
+        note="A crash point is 'between two file-system calls of the process' (snapshot at a hook point); torn single writes / power loss are not modelled; five recorded findings (D1, D14a-d) are attributed only when the measured cache lag at the crash point matches their signature.",
+        ref="4 C05"),
     "C09": dict(
         engine="Threads",
         technique="TLA+ spec Threads (cut points, planner, executor, scheduler as operators over the frame sequence) model-checked with TLC; every (state, compaction request) transition replayed on the real store and compared with the prediction; gate-scheduled concurrent calls",
